@@ -437,6 +437,19 @@ def run(prog, check):
                      'self.STEP is advanced before the lags and exogenous values of the period are read' if ok_st else
                      'the generated step reads its lags and exogenous values before self.STEP is advanced: they are those of the previous period',
                      'any block with a lag or a time-varying exogenous path, from the second period on')
+    # the generated module solves periods 1..MaxTime: its driver loop runs while STEP < MaxTime (STEP starts at 0 and is advanced first
+    # thing in the step); `<=` runs one period past the exogenous paths, which were cut to MaxTime + 1 points
+    tmain = [f for c in ast.walk(ttree) if isinstance(c, ast.ClassDef) for f in c.body if isinstance(f, ast.FunctionDef) and f.name == 'main']
+    for fm_ in tmain:
+        for w in ast.walk(fm_):
+            if isinstance(w, ast.While) and isinstance(w.test, ast.Compare) and len(w.test.ops) == 1 and 'STEP' in unparse(w.test) and \
+                    any(isinstance(c_, ast.Call) and call_name(c_) == 'RunOneStep' for c_ in ast.walk(w)):
+                l_, r_, op_ = w.test.left, w.test.comparators[0], w.test.ops[0]
+                ok_b = ('STEP' in unparse(l_) and isinstance(op_, ast.Lt)) or ('STEP' in unparse(r_) and isinstance(op_, ast.Gt))
+                check.ob('C20.R2', '%s::template-driver-runs-MaxTime-steps' % gen_cls.key, ok_b, '%s:%d' % (gen_cls.module.rel, tmpl.lineno),
+                         'the generated driver steps while STEP < MaxTime' if ok_b else
+                         'the generated driver loop tests `%s`: it runs a step beyond the horizon (the exogenous lists end at MaxTime)' % unparse(w.test),
+                         'any block with an exogenous variable: IndexError in the last step')
     # the table of the generated module lists the non-lagged variables: the list handed to BaseSolver is that collection
     for gf_ in gen_cls.methods.values():
         for c_ in ast.walk(gf_.node):
